@@ -1,6 +1,7 @@
 //! Probe engines: each one drives a piece of the real amiquip code with the line protocol of
 //! DESIGN.md Appendix A and prints canonical observations.
 
+pub mod api;
 pub mod framebuf;
 pub mod machine;
 pub mod slots;
@@ -15,6 +16,7 @@ pub trait Engine {
 
 pub fn make(name: &str) -> Option<Box<dyn Engine>> {
     match name {
+        "api" => Some(Box::new(api::ApiEngine::default())),
         "framebuf" => Some(Box::new(framebuf::FrameBufEngine::default())),
         "machine" => Some(Box::new(machine::MachineEngine::default())),
         "parsecheck" => Some(Box::new(framebuf::ParseCheckEngine::default())),
